@@ -48,28 +48,33 @@ def eavInit (st : State) : State :=
   { st with obj := some { rfc := 3, allowTld := defaultMask, tldCheck := true, utf8 := false, errcode := 0,
                           idnmsg := none, initialized := false, utf8Cb := false, asciiCb := none, result := none } }
 
+/-- the three ASCII arms of `eav_setup`: install the callback, then
+`if (eav->initialized) { eav->initialized = false; [idnkit: idn_resconf_destroy (eav->idn)] }`, `utf8 = false` -/
+def setupAscii (be : Backend) (st : State) (e : EavT) (m : Mode) : Except Fault (State × Int) :=
+  if e.initialized && be == .idnkit then
+    if st.resconfLive == 0 then .error .badfree
+    else .ok ({ st with resconfLive := st.resconfLive - 1, resconfDestroyed := st.resconfDestroyed + 1,
+                        obj := some { e with asciiCb := some m, initialized := false, utf8 := false } }, 0)
+  else .ok ({ st with obj := some { e with asciiCb := some m, initialized := false, utf8 := false } }, 0)
+
+/-- the `EAV_RFC_6531` arm: `utf8 = true; utf8_cb = is_6531_email; return init_idn (eav)`
+(idnkit: `init_idn` creates the context unless the object is already `initialized`) -/
+def setup6531 (be : Backend) (st : State) (e : EavT) : Except Fault (State × Int) :=
+  if e.initialized then .ok ({ st with obj := some { e with utf8 := true, utf8Cb := true } }, 0)
+  else if be == .idnkit then
+    .ok ({ st with resconfLive := st.resconfLive + 1, resconfCreated := st.resconfCreated + 1,
+                   obj := some { e with utf8 := true, utf8Cb := true, initialized := true } }, 0)
+  else .ok ({ st with obj := some { e with utf8 := true, utf8Cb := true, initialized := true } }, 0)
+
 /-- `eav_setup`; returns the state and the return code -/
 def eavSetup (be : Backend) (st : State) : Except Fault (State × Int) :=
   match st.obj with
   | none => .error .uninit
   | some e =>
-    let ascii (m : Mode) : Except Fault (State × Int) :=
-      -- `if (eav->initialized) { eav->initialized = false; [idnkit: idn_resconf_destroy] }`
-      let st' := if e.initialized && be == .idnkit then
-                   { st with resconfLive := st.resconfLive - 1, resconfDestroyed := st.resconfDestroyed + 1 } else st
-      if e.initialized && be == .idnkit && st.resconfLive == 0 then .error .badfree else
-      .ok ({ st' with obj := some { e with asciiCb := some m, initialized := false, utf8 := false } }, 0)
-    if e.rfc == 0 then ascii .m822
-    else if e.rfc == 1 then ascii .m5321
-    else if e.rfc == 2 then ascii .m5322
-    else if e.rfc == 3 then
-      -- utf8 = true; utf8_cb = is_6531_email; init_idn
-      let e' := { e with utf8 := true, utf8Cb := true }
-      if e.initialized then .ok ({ st with obj := some e' }, 0)
-      else
-        let st' := if be == .idnkit then
-                     { st with resconfLive := st.resconfLive + 1, resconfCreated := st.resconfCreated + 1 } else st
-        .ok ({ st' with obj := some { e' with initialized := true } }, 0)
+    if e.rfc == 0 then setupAscii be st e .m822
+    else if e.rfc == 1 then setupAscii be st e .m5321
+    else if e.rfc == 2 then setupAscii be st e .m5322
+    else if e.rfc == 3 then setup6531 be st e
     else .ok ({ st with obj := some { e with errcode := E.INVALID_RFC } }, (E.INVALID_RFC : Int))
 
 /-- the `switch (eav->result->rc)` of `eav_is_email`: TLD class → (errcode, allow_tld bit) -/
@@ -95,22 +100,33 @@ def verdictOf (allowTld : Nat) (r : Result) : Except Fault (Int × Nat × Option
     | none => .error .abort
     | some (ec, bit) => if allowTld &&& bit != 0 then .ok (1, 0, none) else .ok (0, ec, none)
 
-/-- `eav_is_email`; returns the state and the return value -/
+/-- the callback `eav_is_email` calls: `utf8_cb` when `utf8` is set, `ascii_cb` otherwise (NULL is a fault) -/
+def selectedMode (e : EavT) : Except Fault Mode :=
+  if e.utf8 then (if e.utf8Cb then .ok .m6531 else .error .nullcb)
+  else match e.asciiCb with
+    | some m => .ok m
+    | none => .error .nullcb
+
+/-- `eav_is_email`; returns the state and the return value.
+`eav_result_free (eav->result)` first (a record that is not live would be a double free), then the callback,
+then the policy; the new record replaces the old one. -/
 def eavIsEmail (b : Build) (conv : List Nat → Conv) (st : State) (email : List Nat) : Except Fault (State × Int) :=
   match st.obj with
   | none => .error .uninit
-  | some e => do
-    -- eav_result_free (eav->result)
-    let st1 := match e.result with
-      | some _ => { st with liveResults := st.liveResults - 1, freedResults := st.freedResults + 1 }
-      | none => st
+  | some e =>
     if e.result.isSome && st.liveResults == 0 then .error .badfree
-    let mode ← (if e.utf8 then (if e.utf8Cb then pure Mode.m6531 else .error .nullcb)
-                else match e.asciiCb with | some m => pure m | none => .error .nullcb)
-    let r ← isEmail b conv mode email e.tldCheck
-    let st2 := { st1 with liveResults := st1.liveResults + 1 }
-    let (ret, ec, msg) ← verdictOf e.allowTld r
-    return ({ st2 with obj := some { e with result := some r, errcode := ec, idnmsg := msg } }, ret)
+    else match selectedMode e with
+      | .error f => .error f
+      | .ok mode =>
+        match isEmail b conv mode email e.tldCheck with
+        | .error f => .error f
+        | .ok r =>
+          match verdictOf e.allowTld r with
+          | .error f => .error f
+          | .ok (ret, ec, msg) =>
+            .ok ({ st with liveResults := (if e.result.isSome then st.liveResults - 1 else st.liveResults) + 1,
+                           freedResults := st.freedResults + (if e.result.isSome then 1 else 0),
+                           obj := some { e with result := some r, errcode := ec, idnmsg := msg } }, ret)
 
 def eavErrstr (st : State) : Except Fault Msg :=
   match st.obj with
@@ -124,16 +140,18 @@ def eavFree (be : Backend) (st : State) : Except Fault State :=
   match st.obj with
   | none => .error .uninit
   | some e =>
-    if e.result.isSome && st.liveResults == 0 then .error .badfree else
-    let st1 := match e.result with
-      | some _ => { st with liveResults := st.liveResults - 1, freedResults := st.freedResults + 1 }
-      | none => st
+    -- eav_result_free (eav->result); eav->result = NULL
+    if e.result.isSome && st.liveResults == 0 then .error .badfree
     -- idnkit: `if (eav != NULL && eav->initialized) idn_resconf_destroy (eav->idn);`
-    if be == .idnkit && e.initialized then
+    else if be == .idnkit && e.initialized then
       if st.resconfLive == 0 then .error .badfree
-      else .ok { st1 with obj := some { e with result := none },
-                          resconfLive := st1.resconfLive - 1, resconfDestroyed := st1.resconfDestroyed + 1 }
-    else .ok { st1 with obj := some { e with result := none } }
+      else .ok { st with liveResults := (if e.result.isSome then st.liveResults - 1 else st.liveResults),
+                         freedResults := st.freedResults + (if e.result.isSome then 1 else 0),
+                         resconfLive := st.resconfLive - 1, resconfDestroyed := st.resconfDestroyed + 1,
+                         obj := some { e with result := none } }
+    else .ok { st with liveResults := (if e.result.isSome then st.liveResults - 1 else st.liveResults),
+                       freedResults := st.freedResults + (if e.result.isSome then 1 else 0),
+                       obj := some { e with result := none } }
 
 /-- the operations a caller can perform on one `eav_t` -/
 inductive Op
@@ -166,24 +184,37 @@ def step (be : Backend) (b : Build) (st : State) : Op → Except Fault (State ×
   | .setMask k => match st.obj with
     | none => .error .uninit
     | some e => .ok ({ st with obj := some { e with allowTld := k } }, .unit)
-  | .setup => do let (s, rc) ← eavSetup be st; return (s, .rc rc)
-  | .isEmail a c => do
-    let (s, ret) ← eavIsEmail b (fun _ => c) st a
-    let m ← eavErrstr s
-    match s.obj with
-    | some e => match e.result with
-      | some r => return (s, .verdict ret e.errcode m r)
-      | none => .error .oob
-    | none => .error .uninit
-  | .errstr => do let m ← eavErrstr st; return (st, .msg m)
-  | .free => do let s ← eavFree be st; return (s, .unit)
+  | .setup => match eavSetup be st with
+    | .error f => .error f
+    | .ok (s, rc) => .ok (s, .rc rc)
+  | .isEmail a c =>
+    match eavIsEmail b (fun _ => c) st a with
+    | .error f => .error f
+    | .ok (s, ret) =>
+      match eavErrstr s with
+      | .error f => .error f
+      | .ok m =>
+        match s.obj with
+        | some e => (match e.result with
+          | some r => .ok (s, .verdict ret e.errcode m r)
+          | none => .error .oob)
+        | none => .error .uninit
+  | .errstr => match eavErrstr st with
+    | .error f => .error f
+    | .ok m => .ok (st, .msg m)
+  | .free => match eavFree be st with
+    | .error f => .error f
+    | .ok s => .ok (s, .unit)
 
 /-- run a history from the blank state, collecting the observations -/
 def run (be : Backend) (b : Build) : State → List Op → Except Fault (State × List Out)
   | st, [] => .ok (st, [])
-  | st, op :: ops => do
-    let (s, o) ← step be b st op
-    let (s', os) ← run be b s ops
-    return (s', o :: os)
+  | st, op :: ops =>
+    match step be b st op with
+    | .error f => .error f
+    | .ok (s, o) =>
+      match run be b s ops with
+      | .error f => .error f
+      | .ok (s', os) => .ok (s', o :: os)
 
 end Eav
